@@ -157,3 +157,89 @@ func VC08_Shedding() {
 	vf.Quiesce()
 	vf.Assert(vf.Live() == 0, "broker-goroutine-left-after-stop")
 }
+
+// Unsubscribe: the remaining subscriber still gets everything; the one that
+// left got everything published before its Unsubscribe was called.
+// Unsubscribing twice (or a channel that is not subscribed) is harmless.
+func VC08_Unsubscribe() {
+	backend := vf.Choice("backend", 3)
+	ctx, cancel := context.WithCancel(context.Background())
+	defer cancel()
+	b := vc08broker(ctx, backend, BrokerOptions{WorkerPoolSize: 1})
+	nmsg := 2
+	msgs := make([]vc05item, nmsg)
+	for i := range msgs {
+		msgs[i] = vc05item{ID: i + 1, V: vf.Int("v")}
+	}
+	got := make([][]vc05item, 2)
+	chans := make([]chan vc05item, 2)
+	for i := 0; i < 2; i++ {
+		i := i
+		chans[i] = b.Subscribe(ctx)
+		vf.Assert(chans[i] != nil, "subscribe-failed-on-a-live-broker")
+		vf.Go(func() {
+			for {
+				select {
+				case m := <-chans[i]:
+					got[i] = append(got[i], m)
+				case <-ctx.Done():
+					return
+				}
+			}
+		})
+	}
+	leaveAfter := vf.Range("second-leaves-after", 0, nmsg)
+	times := vf.Range("unsubscribe-calls", 1, 2)
+	published := 0
+	leave := func() {
+		for k := 0; k < times; k++ {
+			b.Unsubscribe(ctx, chans[1])
+		}
+		if vf.Choice("also-unsubscribe-a-stranger", 2) == 1 {
+			b.Unsubscribe(ctx, make(chan vc05item))
+		}
+	}
+	for i := 0; i < nmsg; i++ {
+		if leaveAfter == i {
+			leave()
+		}
+		b.Publish(ctx, msgs[i])
+		published++
+	}
+	if leaveAfter == nmsg {
+		leave()
+	}
+	vf.Quiesce()
+	vf.Reach("unsubscribe-quiescent")
+	for i := 0; i < 2; i++ {
+		seen := map[int]bool{}
+		last := 0
+		for _, m := range got[i] {
+			ok := m.ID >= 1 && m.ID <= nmsg
+			vf.Assert(ok, "subscriber-received-a-message-that-was-never-published")
+			if !ok {
+				continue
+			}
+			vf.Assert(m.V == msgs[m.ID-1].V, "message-altered")
+			vf.Assert(!seen[m.ID], "subscriber-received-a-publication-twice")
+			seen[m.ID] = true
+			vf.Assert(m.ID > last, "subscriber-order-differs-from-publish-order")
+			last = m.ID
+		}
+		must := nmsg
+		if i == 1 {
+			must = leaveAfter
+		}
+		for id := 1; id <= must; id++ {
+			if i == 1 {
+				vf.Assert(seen[id], "subscriber-did-not-receive-every-message-published-while-it-was-subscribed@leaving-subscriber")
+			} else {
+				vf.Assert(seen[id], "subscriber-did-not-receive-every-message-published-while-it-was-subscribed")
+			}
+		}
+	}
+	b.Stop()
+	b.Wait(context.Background())
+	vf.Quiesce()
+	vf.Assert(vf.Live() == 0, "broker-goroutine-left-after-stop")
+}
